@@ -10,6 +10,7 @@
 -/
 import Robotools.Proofs.ReplayLemmas
 import Robotools.Props.C05
+import Robotools.Proofs.FlowLemmas
 import Mathlib.Tactic.Ring
 import Mathlib.Tactic.Linarith
 import Mathlib.Tactic.FieldSimp
@@ -269,6 +270,632 @@ theorem put_amt {R : RLab} {L L' : Labware} {j : Nat} {v : Rat} {c : Comp} {a : 
       congr 1
       unfold Labware.vol
       rw [hvols, getD_set_ne _ _ _ _ _ hij]
+
+/-! ### Whole replay state against the tracked world -/
+
+def AmtOK (st : RState) (w : World) : Prop := List.Forall₂ LabAmt st.labs w.labs
+
+theorem amtOK_set {st : RState} {w : World} (hA : AmtOK st w) (l : Nat) {R : RLab} {L : Labware}
+    (h : LabAmt R L) : AmtOK (st.setLab l R) (w.setLab l L) := by
+  unfold AmtOK RState.setLab World.setLab
+  exact forall₂_set hA l h
+
+theorem amtOK_set_right {st : RState} {w : World} (hA : AmtOK st w) (l : Nat) {R : RLab}
+    {L' : Labware} (hR : st.labs[l]? = some R) (h : LabAmt R L') : AmtOK st (w.setLab l L') := by
+  unfold AmtOK World.setLab
+  exact forall₂_set_right hA l hR h
+
+/-- Replaying the `A;` record of an accepted removal of a positive volume: volumes and amounts keep
+    mirroring the tracking, and the tip holds `v × fraction` of every component of the source well. -/
+theorem interp_asp_amt {dev : Device} {st : RState} {w : World} {I} (hM : Match st w)
+    (hA : AmtOK st w) (hI : info w = I) (hwf : WFI I) {l : Nat} {L : Labware}
+    (hL : w.labs[l]? = some L) {s : String} {p i : Nat} (hp : dev.pos L.geom s = .ok p)
+    (hr : L.geom.resolveFlat s = some i) {f : ADFields} (hlab : f.rackLabel = L.name)
+    (hpos : f.position = p) {L' : Labware} (hstep : L.removeStep i f.vol = .ok L')
+    (hv : 0 < f.vol) (hmin : 0 ≤ L.minV) :
+    ∃ st', st.interp dev (.asp f) = some st' ∧ Match st' (w.setLab l L')
+      ∧ AmtOK st' (w.setLab l L') ∧ (st'.tip.map (·.1)).Nodup
+      ∧ ∀ k, amtOf st'.tip k = f.vol * L.frac i k := by
+  obtain ⟨R, hR, hRL, hfind⟩ := findLab_of_match hM hI hwf hL
+  obtain ⟨R2, hR2, hRA⟩ := forall₂_getElem? hA hL
+  rw [hR] at hR2; cases hR2
+  obtain ⟨rc, hwo, hflat, hlen⟩ := wellOf_pos (geomOK_of_mem hI hwf hL) hp hr
+  obtain ⟨R', out, htake, hRL', hRA', hnd, hout⟩ := take_amt hRL hRA hlen hstep hv hmin
+  have hwa : R.wellAt dev f.position = some i := by
+    unfold RLab.wellAt
+    rw [hRL.geom, hpos, hwo]
+    simp only [Option.bind_some, hflat]
+    rw [if_pos (by rw [hRL.length]; exact hlen)]
+  refine ⟨{ (st.setLab l R') with tip := out }, ?_, match_tip (match_set hM l hRL') out,
+    amtOK_set hA l hRA', hnd, hout⟩
+  simp only [RState.interp, hlab, hfind, hwa, htake, Option.bind_eq_bind, Option.bind_some,
+    Option.pure_def]
+
+/-- Replaying the `D;` record of an accepted addition whose tracked composition is what the tip holds. -/
+theorem interp_disp_amt {dev : Device} {st : RState} {w : World} {I} (hM : Match st w)
+    (hA : AmtOK st w) (hI : info w = I) (hwf : WFI I) {l : Nat} {L : Labware}
+    (hL : w.labs[l]? = some L) {s : String} {p j : Nat} (hp : dev.pos L.geom s = .ok p)
+    (hr : L.geom.resolveFlat s = some j) {f : ADFields} (hlab : f.rackLabel = L.name)
+    (hpos : f.position = p) {L' : Labware} {c : Comp}
+    (hstep : L.addStep j f.vol (some c) = .ok L') (hLv : CompValid L) (hv : 0 ≤ f.vol)
+    (hvol : 0 ≤ L.vol j) (htip : ∀ k, Mix.csum st.tip k = f.vol * compOf c k) :
+    ∃ st', st.interp dev (.disp f) = some st' ∧ Match st' (w.setLab l L')
+      ∧ AmtOK st' (w.setLab l L') := by
+  obtain ⟨R, hR, hRL, hfind⟩ := findLab_of_match hM hI hwf hL
+  obtain ⟨R2, hR2, hRA⟩ := forall₂_getElem? hA hL
+  rw [hR] at hR2; cases hR2
+  obtain ⟨rc, hwo, hflat, hlen⟩ := wellOf_pos (geomOK_of_mem hI hwf hL) hp hr
+  obtain ⟨R', hput, hRL', hRA'⟩ := put_amt hRL hRA hlen hstep hLv hv hvol htip
+  have hwa : R.wellAt dev f.position = some j := by
+    unfold RLab.wellAt
+    rw [hRL.geom, hpos, hwo]
+    simp only [Option.bind_some, hflat]
+    rw [if_pos (by rw [hRL.length]; exact hlen)]
+  refine ⟨st.setLab l R', ?_, match_set hM l hRL', amtOK_set hA l hRA'⟩
+  simp only [RState.interp, hlab, hfind, hwa, hput, Option.bind_eq_bind, Option.bind_some,
+    Option.pure_def]
+
+/-! ### Labware that differ in their history only -/
+
+structure SameLiquid (L L' : Labware) : Prop where
+  vols : L'.vols = L.vols
+  comp : L'.comp = L.comp
+  name : L'.name = L.name
+  geom : L'.geom = L.geom
+  minV : L'.minV = L.minV
+  maxV : L'.maxV = L.maxV
+
+theorem sameLiquid_log (L : Labware) (label : Option String) : SameLiquid L (L.log label) :=
+  ⟨rfl, rfl, rfl, rfl, rfl, rfl⟩
+
+theorem sameLiquid_condense {L L' : Labware} {n : Nat} {label : Option String}
+    (h : L.condenseLog n label = .ok L') : SameLiquid L L' := by
+  obtain ⟨hv, hmin, hmax, hc, hg, hn⟩ := Labware.condenseLog_fields h
+  exact ⟨hv, hc, hn, hg, hmin, hmax⟩
+
+theorem SameLiquid.labMatch {R : RLab} {L L' : Labware} (h : SameLiquid L L') (hm : LabMatch R L) :
+    LabMatch R L' := labMatch_of_vols hm h.vols h.name h.geom h.minV h.maxV
+
+theorem SameLiquid.labAmt {R : RLab} {L L' : Labware} (h : SameLiquid L L') (ha : LabAmt R L) :
+    LabAmt R L' := labAmt_congr ha h.vols h.comp
+
+/-- The world-side invariant the amount lemmas need: limits and a well-formed composition table. -/
+def Good (w : World) : Prop := ∀ L ∈ w.labs, C02.LabValid L ∧ CompValid L
+
+theorem SameLiquid.good {L L' : Labware} (h : SameLiquid L L') (hg : C02.LabValid L ∧ CompValid L) :
+    C02.LabValid L' ∧ CompValid L' := by
+  obtain ⟨hv, hc⟩ := hg
+  refine ⟨⟨by rw [h.minV]; exact hv.min_nonneg, by rw [h.minV, h.maxV]; exact hv.min_lt_max,
+    by rw [h.vols, h.maxV]; exact hv.range⟩, ⟨by rw [h.comp]; exact hc.keys_nodup,
+    by rw [h.comp, h.vols]; exact hc.lens, by rw [h.comp]; exact hc.nonneg⟩⟩
+
+theorem good_set {w : World} (hG : Good w) (l : Nat) {L' : Labware}
+    (h : C02.LabValid L' ∧ CompValid L') : Good (w.setLab l L') := by
+  intro L hL
+  unfold World.setLab at hL
+  rcases List.mem_or_eq_of_mem_set hL with h' | h'
+  · exact hG L h'
+  · subst h'; exact h
+
+theorem good_get {w : World} (hG : Good w) {l : Nat} {L : Labware} (hL : w.labs[l]? = some L) :
+    C02.LabValid L ∧ CompValid L := hG L (List.mem_of_getElem? hL)
+
+/-! ### The scalar blocks of a transfer pair -/
+
+theorem compileAspirate_scalar (cfg : Cfg) (S : Labware) (src : Nat) (s : String) (v : Rat)
+    (kw : KW) (hv : 0 < v) :
+    compileAspirate cfg S src (.scalar s) (.scalar v) none kw
+      = [rmMicro S src (s, v), .log src none]
+        ++ exceptMicros (adOut cfg S true kw (s, v)) (fun rs => rs.map Micro.emit) := by
+  have hv' : ¬ v < 0 := not_lt.mpr (le_of_lt hv)
+  unfold compileAspirate compileRemove
+  simp only [emitAD_eq]
+  simp [Arr.flattenF, broadcast1, commentMicros, commentRecs, exceptMicros, hv', rmMicro]
+  cases S.geom.resolveFlat s <;> rfl
+
+theorem compileDispense_scalar (cfg : Cfg) (D : Labware) (dst : Nat) (d : String) (v : Rat)
+    (kw : KW) (hv : 0 < v) :
+    compileDispense cfg D dst (.scalar d) (.scalar v) none none kw true
+      = [adMicro D dst ((d, v), .carry), .log dst none]
+        ++ exceptMicros (adOut cfg D false kw (d, v)) (fun rs => rs.map Micro.emit) := by
+  have hv' : ¬ v < 0 := not_lt.mpr (le_of_lt hv)
+  unfold compileDispense compileAdd
+  simp only [emitAD_eq]
+  simp [Arr.flattenF, broadcast1, commentMicros, commentRecs, exceptMicros, hv', adMicro]
+  cases D.geom.resolveFlat d <;> rfl
+
+/-- What an accepted record of the emission loop carries (positive volume). -/
+theorem adOut_ok {cfg : Cfg} {L : Labware} {isAsp : Bool} {kw : KW} {s : String} {v : Rat}
+    {rs : List Rec} (hv : 0 < v) (h : adOut cfg L isAsp kw (s, v) = .ok rs) :
+    ∃ f pos, rs = [if isAsp then Rec.asp f else Rec.disp f] ∧ cfg.dev.pos L.geom s = .ok pos
+      ∧ f.rackLabel = L.name ∧ f.position = pos ∧ f.vol = v := by
+  unfold adOut at h
+  simp only [hv, if_true] at h
+  cases hpos : cfg.dev.pos L.geom s with
+  | error e => simp [hpos] at h
+  | ok pos =>
+    simp only [hpos] at h
+    split at h
+    · cases h
+    · rename_i f hprep
+      simp only [Except.ok.injEq] at h
+      obtain ⟨hfv, hfl, hfp, _⟩ := prepareAD_fields _ _ _ hprep
+      simp only at hfv hfl hfp
+      exact ⟨f, pos, h.symm, rfl, hfl, by rw [hfp]; simp, hfv⟩
+
+theorem exec_exceptMicros_emit (w : World) (x : Except Err (List Rec)) :
+    w.exec (exceptMicros x fun rs => rs.map Micro.emit)
+      = match x with
+        | .ok rs => ({ w with recs := w.recs ++ rs }, none)
+        | .error e => (w, some e) := by
+  cases x with
+  | ok rs => exact exec_emit_list w rs
+  | error e => simp [exceptMicros, World.exec, World.micro]
+
+/-- The aspirate half of a transfer pair (one well, positive volume), run to completion: the source
+    well loses `v`, one `A;` record is appended, the replay follows and its tip holds `v × fraction`. -/
+theorem asp1 {dev : Device} {labs₀ : List Labware} {I} (hwf : WFI I) (cfg : Cfg)
+    (hdev : cfg.dev = dev) (S : Labware) (src : Nat)
+    (hIs : ∃ n, I[src]? = some (S.name, S.geom, n)) (s : String) (v : Rat) (kw : KW) (hv : 0 < v)
+    (w : World) (hI : info w = I) (hG : Good w) (st : RState)
+    (hrun : (RState.ofLabs labs₀).run dev w.recs = some st) (hM : Match st w) (hA : AmtOK st w)
+    (hok : (w.exec (compileAspirate cfg S src (.scalar s) (.scalar v) none kw)).2 = none) :
+    ∃ i S0 S1 st' w', w.exec (compileAspirate cfg S src (.scalar s) (.scalar v) none kw) = (w', none)
+      ∧ S.geom.resolveFlat s = some i ∧ w.labs[src]? = some S0 ∧ S0.removeStep i v = .ok S1
+      ∧ w'.labs = w.labs.set src (S1.log none) ∧ w'.carry = w.carry ∧ w'.cfg = w.cfg
+      ∧ (RState.ofLabs labs₀).run dev w'.recs = some st' ∧ Match st' w' ∧ AmtOK st' w' ∧ Good w'
+      ∧ (st'.tip.map (·.1)).Nodup ∧ ∀ k, amtOf st'.tip k = v * S0.frac i k := by
+  rw [compileAspirate_scalar cfg S src s v kw hv] at hok ⊢
+  obtain ⟨S0, hS0, hn0, hg0⟩ := lab_of_info hI hIs
+  obtain ⟨hS0v, hS0c⟩ := good_get hG hS0
+  cases hres : S.geom.resolveFlat s with
+  | none =>
+    exfalso
+    have hm : w.micro (rmMicro S src (s, v)) = .error .reject := by
+      simp [rmMicro, hres, World.micro]
+    rw [List.cons_append, World.exec_cons_error _ hm] at hok
+    cases hok
+  | some i =>
+    have hrm : rmMicro S src (s, v) = Micro.rm src i v := by simp [rmMicro, hres]
+    rw [hrm] at hok ⊢
+    cases hstep : S0.removeStep i v with
+    | error e =>
+      exfalso
+      have hm : w.micro (.rm src i v) = .error e := by simp [World.micro, hS0, hstep]
+      rw [List.cons_append, World.exec_cons_error _ hm] at hok
+      cases hok
+    | ok S1 =>
+      have hm1 : w.micro (.rm src i v) = .ok (w.setLab src S1) := by
+        simp [World.micro, hS0, hstep]
+      have hS1 : (w.setLab src S1).labs[src]? = some S1 := getElem?_setLab_self hS0
+      have hm2 : (w.setLab src S1).micro (.log src none)
+          = .ok ((w.setLab src S1).setLab src (S1.log none)) := by
+        simp [World.micro, hS1]
+      rw [List.cons_append, World.exec_cons_ok _ hm1, List.cons_append, World.exec_cons_ok _ hm2,
+        List.nil_append, exec_exceptMicros_emit] at hok ⊢
+      cases hout : adOut cfg S true kw (s, v) with
+      | error e => rw [hout] at hok; cases hok
+      | ok rs =>
+        simp only [hout]
+        obtain ⟨f, pos, hrs, hpos, hfl, hfp, hfv⟩ := adOut_ok hv hout
+        simp only [if_true] at hrs
+        subst hrs
+        have hp' : dev.pos S0.geom s = .ok pos := by rw [← hdev, hg0]; exact hpos
+        have hr' : S0.geom.resolveFlat s = some i := by rw [hg0]; exact hres
+        have hstep' : S0.removeStep i f.vol = .ok S1 := by rw [hfv]; exact hstep
+        obtain ⟨st', hint, hM', hA', hnd, htip⟩ := interp_asp_amt hM hA hI hwf hS0 hp' hr'
+          (by rw [hfl, hn0]) hfp hstep' (by rw [hfv]; exact hv) hS0v.min_nonneg
+        obtain ⟨R', hR', hRL'⟩ := forall₂_getElem? hM' hS1
+        obtain ⟨R2, hR2, hRA'⟩ := forall₂_getElem? hA' hS1
+        rw [hR'] at hR2; cases hR2
+        have hsl := sameLiquid_log S1 none
+        have hS1good : C02.LabValid S1 ∧ CompValid S1 :=
+          ⟨C02.removeStep_valid S0 S1 i v (le_of_lt hv) hS0v hstep,
+           (compValid_removeStep S0 S1 i v hS0c hstep).1⟩
+        refine ⟨i, S0, S1, st', _, rfl, rfl, hS0, hstep, ?_, rfl, rfl, ?_, ?_, ?_, ?_, hnd, ?_⟩
+        · simp [World.setLab]
+        · simp only
+          have hrecs : ((w.setLab src S1).setLab src (S1.log none)).recs = w.recs := rfl
+          rw [run_append, hrecs, hrun, Option.bind_some]
+          simp only [RState.run, hint, Option.bind_some]
+        · exact match_set_right hM' src hR' (hsl.labMatch hRL')
+        · exact amtOK_set_right hA' src hR' (hsl.labAmt hRA')
+        · exact good_set (good_set hG src hS1good) src (hsl.good hS1good)
+        · intro k; rw [htip k, hfv]
+
+/-- The dispense half of a transfer pair: the destination well gains `v` with the carried composition,
+    one `D;` record is appended, and the replay (whose tip holds `v ×` that composition) follows. -/
+theorem disp1 {dev : Device} {labs₀ : List Labware} {I} (hwf : WFI I) (cfg : Cfg)
+    (hdev : cfg.dev = dev) (D : Labware) (dst : Nat)
+    (hId : ∃ n, I[dst]? = some (D.name, D.geom, n)) (d : String) (v : Rat) (kw : KW) (hv : 0 < v)
+    (w : World) (hI : info w = I) (hG : Good w) (st : RState)
+    (hrun : (RState.ofLabs labs₀).run dev w.recs = some st) (hM : Match st w) (hA : AmtOK st w)
+    (hcnn : ∀ p ∈ w.carry, 0 ≤ p.2) (htip : ∀ k, Mix.csum st.tip k = v * compOf w.carry k)
+    (hok : (w.exec (compileDispense cfg D dst (.scalar d) (.scalar v) none none kw true)).2 = none) :
+    ∃ st' w', w.exec (compileDispense cfg D dst (.scalar d) (.scalar v) none none kw true) = (w', none)
+      ∧ w'.cfg = w.cfg
+      ∧ (RState.ofLabs labs₀).run dev w'.recs = some st' ∧ Match st' w' ∧ AmtOK st' w' ∧ Good w' := by
+  rw [compileDispense_scalar cfg D dst d v kw hv] at hok ⊢
+  obtain ⟨D0, hD0, hn0, hg0⟩ := lab_of_info hI hId
+  obtain ⟨hD0v, hD0c⟩ := good_get hG hD0
+  cases hres : D.geom.resolveFlat d with
+  | none =>
+    exfalso
+    have hm : w.micro (adMicro D dst ((d, v), .carry)) = .error .reject := by
+      simp [adMicro, hres, World.micro]
+    rw [List.cons_append, World.exec_cons_error _ hm] at hok
+    cases hok
+  | some j =>
+    have had : adMicro D dst ((d, v), .carry) = Micro.ad dst j v .carry := by simp [adMicro, hres]
+    rw [had] at hok ⊢
+    cases hstep : D0.addStep j v (some w.carry) with
+    | error e =>
+      exfalso
+      have hm : w.micro (.ad dst j v .carry) = .error e := by simp [World.micro, hD0, hstep]
+      rw [List.cons_append, World.exec_cons_error _ hm] at hok
+      cases hok
+    | ok D1 =>
+      have hm1 : w.micro (.ad dst j v .carry) = .ok (w.setLab dst D1) := by
+        simp [World.micro, hD0, hstep]
+      have hD1 : (w.setLab dst D1).labs[dst]? = some D1 := getElem?_setLab_self hD0
+      have hm2 : (w.setLab dst D1).micro (.log dst none)
+          = .ok ((w.setLab dst D1).setLab dst (D1.log none)) := by
+        simp [World.micro, hD1]
+      rw [List.cons_append, World.exec_cons_ok _ hm1, List.cons_append, World.exec_cons_ok _ hm2,
+        List.nil_append, exec_exceptMicros_emit] at hok ⊢
+      cases hout : adOut cfg D false kw (d, v) with
+      | error e => rw [hout] at hok; cases hok
+      | ok rs =>
+        simp only [hout]
+        obtain ⟨f, pos, hrs, hpos, hfl, hfp, hfv⟩ := adOut_ok hv hout
+        simp only [Bool.false_eq_true, if_false] at hrs
+        subst hrs
+        have hp' : dev.pos D0.geom d = .ok pos := by rw [← hdev, hg0]; exact hpos
+        have hr' : D0.geom.resolveFlat d = some j := by rw [hg0]; exact hres
+        have hstep' : D0.addStep j f.vol (some w.carry) = .ok D1 := by rw [hfv]; exact hstep
+        have hvol : 0 ≤ D0.vol j := vol_nonneg D0 j (fun x hx => (hD0v.range x hx).1)
+        obtain ⟨st', hint, hM', hA'⟩ := interp_disp_amt hM hA hI hwf hD0 hp' hr'
+          (by rw [hfl, hn0]) hfp hstep' hD0c (by rw [hfv]; exact le_of_lt hv) hvol
+          (by intro k; rw [hfv]; exact htip k)
+        obtain ⟨R', hR', hRL'⟩ := forall₂_getElem? hM' hD1
+        obtain ⟨R2, hR2, hRA'⟩ := forall₂_getElem? hA' hD1
+        rw [hR'] at hR2; cases hR2
+        have hsl := sameLiquid_log D1 none
+        have hD1good : C02.LabValid D1 ∧ CompValid D1 :=
+          ⟨C02.addStep_valid D0 D1 j v (some w.carry) (le_of_lt hv) hD0v hstep,
+           addStep_compValid D0 D1 j v (some w.carry) hD0c (le_of_lt hv) hvol
+             (by intro cB hcB; cases hcB; exact hcnn) hstep⟩
+        refine ⟨st', _, rfl, rfl, ?_, ?_, ?_, ?_⟩
+        · simp only
+          have hrecs : ((w.setLab dst D1).setLab dst (D1.log none)).recs = w.recs := rfl
+          rw [run_append, hrecs, hrun, Option.bind_some]
+          simp only [RState.run, hint, Option.bind_some]
+        · exact match_set_right hM' dst hR' (hsl.labMatch hRL')
+        · exact amtOK_set_right hA' dst hR' (hsl.labAmt hRA')
+        · exact good_set (good_set hG dst hD1good) dst (hsl.good hD1good)
+
+/-! ### Blocks that keep the replay's amounts in step with the tracked composition -/
+
+/-- The records replay, and the replay mirrors the tracked volumes *and* component amounts. -/
+def AInv (dev : Device) (labs₀ : List Labware) (w : World) : Prop :=
+  ∃ st, (RState.ofLabs labs₀).run dev w.recs = some st ∧ Match st w ∧ AmtOK st w
+
+/-- A micro-operation list which, when it runs to the end from a good state in which the replay mirrors
+    volumes and amounts, ends in such a state again. -/
+def ABlock (dev : Device) (labs₀ : List Labware) (I : List (String × Geom × Nat))
+    (ms : List Micro) : Prop :=
+  ∀ w, info w = I → Good w → AInv dev labs₀ w → (w.exec ms).2 = none →
+    AInv dev labs₀ (w.exec ms).1 ∧ Good (w.exec ms).1
+
+theorem exec_append_ok {w : World} {a b : List Micro} (h : (w.exec (a ++ b)).2 = none) :
+    (w.exec a).2 = none ∧ (w.exec a).1.exec b = w.exec (a ++ b) := by
+  rw [World.exec_append] at h ⊢
+  cases hx : w.exec a with
+  | mk w1 e1 =>
+    rw [hx] at h
+    cases e1 with
+    | none => exact ⟨rfl, rfl⟩
+    | some e => cases h
+
+theorem ablock_nil {dev labs₀ I} : ABlock dev labs₀ I [] :=
+  fun _ _ hG hinv _ => ⟨hinv, hG⟩
+
+theorem ablock_append {dev labs₀ I a b} (ha : ABlock dev labs₀ I a) (hb : ABlock dev labs₀ I b) :
+    ABlock dev labs₀ I (a ++ b) := by
+  intro w hI hG hinv hok
+  obtain ⟨h1, h2⟩ := exec_append_ok hok
+  obtain ⟨hinv1, hG1⟩ := ha w hI hG hinv h1
+  have hI1 : info (w.exec a).1 = I := by rw [info_exec, hI]
+  rw [← h2] at hok ⊢
+  exact hb _ hI1 hG1 hinv1 hok
+
+theorem ablock_flatMap {α} {dev labs₀ I} (xs : List α) (f : α → List Micro)
+    (h : ∀ x ∈ xs, ABlock dev labs₀ I (f x)) : ABlock dev labs₀ I (xs.flatMap f) := by
+  induction xs with
+  | nil => exact ablock_nil
+  | cons x xs ih =>
+    rw [List.flatMap_cons]
+    exact ablock_append (h x List.mem_cons_self) (ih fun y hy => h y (List.mem_cons_of_mem _ hy))
+
+/-- A neutral micro-operation changes at most the history of one labware (or the carry register). -/
+theorem neutral_micro_labs {w w' : World} {m : Micro} (hm : Micro.neutral m = true)
+    (hx : w.micro m = .ok w') :
+    w'.labs = w.labs ∨ ∃ l L L', w.labs[l]? = some L ∧ w'.labs = w.labs.set l L' ∧ SameLiquid L L' := by
+  cases m with
+  | rm _ _ _ => simp [Micro.neutral] at hm
+  | ad _ _ _ _ => simp [Micro.neutral] at hm
+  | loadComp l i =>
+    simp only [World.micro] at hx
+    split at hx
+    · cases hx
+    · cases hx; exact Or.inl rfl
+  | log l label =>
+    simp only [World.micro] at hx
+    split at hx
+    · cases hx
+    · rename_i L hL
+      cases hx
+      exact Or.inr ⟨l, L, _, hL, rfl, sameLiquid_log L label⟩
+  | condense l n label =>
+    simp only [World.micro] at hx
+    split at hx
+    · cases hx
+    · rename_i L hL
+      split at hx
+      · rename_i L' hL'
+        cases hx
+        exact Or.inr ⟨l, L, L', hL, rfl, sameLiquid_condense hL'⟩
+      · cases hx
+  | emit r =>
+    simp only [World.micro] at hx
+    cases hx
+    exact Or.inl rfl
+  | setDiti i =>
+    simp only [World.micro] at hx
+    repeat' split at hx
+    all_goals first
+      | (injection hx with hx; subst hx; exact Or.inl rfl)
+      | (injection hx)
+  | fail e => simp [World.micro] at hx
+
+theorem ablock_neutral {dev labs₀ I} (m : Micro) (hm : Micro.neutral m = true) :
+    ABlock dev labs₀ I [m] := by
+  intro w _ hG hinv hok
+  obtain ⟨st, hrun, hM, hA⟩ := hinv
+  cases hx : w.micro m with
+  | error e =>
+    rw [World.exec_cons_error _ hx] at hok
+    cases hok
+  | ok w' =>
+    rw [World.exec_cons_ok _ hx, World.exec_nil]
+    obtain ⟨nrecs, hn, hrecs, hMatch⟩ := neutral_micro hm hx
+    have hrun' : (RState.ofLabs labs₀).run dev w'.recs = some st := by
+      rw [hrecs, run_append, hrun, Option.bind_some]
+      exact run_neutral dev st nrecs hn
+    rcases neutral_micro_labs hm hx with hl | ⟨l, L, L', hL, hl, hsl⟩
+    · refine ⟨⟨st, hrun', hMatch st hM, ?_⟩, ?_⟩
+      · unfold AmtOK; rw [hl]; exact hA
+      · intro L hL; rw [hl] at hL; exact hG L hL
+    · refine ⟨⟨st, hrun', hMatch st hM, ?_⟩, ?_⟩
+      · obtain ⟨R, hR, hRA⟩ := forall₂_getElem? hA hL
+        unfold AmtOK; rw [hl]
+        exact forall₂_set_right hA l hR (hsl.labAmt hRA)
+      · intro L2 hL2
+        rw [hl] at hL2
+        rcases List.mem_or_eq_of_mem_set hL2 with h' | h'
+        · exact hG L2 h'
+        · subst h'; exact hsl.good (good_get hG hL)
+
+theorem ablock_all_neutral {dev labs₀ I} (ms : List Micro)
+    (h : ∀ m ∈ ms, Micro.neutral m = true) : ABlock dev labs₀ I ms := by
+  induction ms with
+  | nil => exact ablock_nil
+  | cons m ms ih =>
+    have : m :: ms = [m] ++ ms := rfl
+    rw [this]
+    exact ablock_append (ablock_neutral m (h m List.mem_cons_self))
+      (ih fun m' hm' => h m' (List.mem_cons_of_mem _ hm'))
+
+/-- One pair of a transfer plan (aspirate `v` from `s`, read the source's composition, dispense `v` into
+    `d` with that composition) keeps volumes *and* amounts of the replay in step with the tracking. -/
+theorem ablock_pair {dev : Device} {labs₀ : List Labware} {I} (hwf : WFI I) (cfg : Cfg)
+    (hdev : cfg.dev = dev) (S : Labware) (src : Nat)
+    (hIs : ∃ n, I[src]? = some (S.name, S.geom, n)) (D : Labware) (dst : Nat)
+    (hId : ∃ n, I[dst]? = some (D.name, D.geom, n)) (s d : String) (v : Rat) (kw : KW)
+    (hv : 0 < v) :
+    ABlock dev labs₀ I
+      (compileAspirate cfg S src (.scalar s) (.scalar v) none kw
+        ++ exceptMicros (match S.geom.resolveFlat s with
+                          | some i => Except.ok i | none => Except.error Err.reject)
+             (fun i => [Micro.loadComp src i])
+        ++ compileDispense cfg D dst (.scalar d) (.scalar v) none none kw true) := by
+  intro w hI hG hinv hok
+  obtain ⟨st, hrun, hM, hA⟩ := hinv
+  rw [List.append_assoc] at hok ⊢
+  obtain ⟨h1, h2⟩ := exec_append_ok hok
+  obtain ⟨i, S0, S1, st1, w1, hx1, hres, hS0, hstep, hlabs1, hcarry1, _, hrun1, hM1, hA1, hG1, hnd, htip⟩ :=
+    asp1 hwf cfg hdev S src hIs s v kw hv w hI hG st hrun hM hA h1
+  rw [← h2] at hok ⊢
+  rw [hx1] at hok ⊢
+  simp only at hok ⊢
+  have hI1 : info w1 = I := by
+    have := info_exec w (compileAspirate cfg S src (.scalar s) (.scalar v) none kw)
+    rw [hx1] at this; rw [this, hI]
+  have hsrc1 : w1.labs[src]? = some (S1.log none) := by
+    rw [hlabs1]
+    exact List.getElem?_set_self (List.getElem?_eq_some_iff.1 hS0).1
+  -- the composition register
+  have hm : w1.micro (.loadComp src i) = .ok { w1 with carry := S1.wellComp i } := by
+    simp only [World.micro, hsrc1]
+    rfl
+  obtain ⟨h3, h4⟩ := exec_append_ok hok
+  rw [← h4] at hok ⊢
+  simp only [hres, exceptMicros] at hok ⊢
+  rw [World.exec_cons_ok _ hm, World.exec_nil] at hok ⊢
+  simp only at hok ⊢
+  obtain ⟨_, hS0c⟩ := good_get hG hS0
+  have hS1c : CompValid S1 := (compValid_removeStep S0 S1 i v hS0c hstep).1
+  have hfrac : ∀ k, compOf (S1.wellComp i) k = S0.frac i k := by
+    intro k
+    rw [(wellComp_spec S1 i hS1c k).1, (removeStep_frac S0 S1 i v hstep).2 i k]
+  obtain ⟨st2, w2, hx2, _, hrun2, hM2, hA2, hG2⟩ :=
+    disp1 hwf cfg hdev D dst hId d v kw hv { w1 with carry := S1.wellComp i } hI1 hG1 st1 hrun1 hM1 hA1
+      (fun p hp => le_of_lt (Mix.wc_pos _ _ p hp))
+      (fun k => by
+        rw [csum_eq_amtOf _ _ hnd, htip k]
+        show v * S0.frac i k = v * compOf (S1.wellComp i) k
+        rw [hfrac k])
+      hok
+  rw [hx2]
+  exact ⟨⟨st2, hrun2, hM2, hA2⟩, hG2⟩
+
+/-! ### A whole transfer -/
+
+theorem pair_pos_transferPlan (autoSplit : Bool) (M : Rat) (byDest : Bool) (ts : List Triple)
+    (s d : String) (v : Rat) (h : PlanStep.pair s d v ∈ transferPlan autoSplit M byDest ts) :
+    0 < v := by
+  unfold transferPlan at h
+  rw [List.mem_flatMap] at h
+  obtain ⟨g, _, hg⟩ := h
+  obtain ⟨_, _, _, _, hpos, _, _⟩ := mem_groupPlan_pair hg
+  exact hpos
+
+theorem ablock_fail {dev labs₀ I} (e : Err) : ABlock dev labs₀ I [.fail e] :=
+  ablock_all_neutral _ (by intro m hm; simp only [List.mem_singleton] at hm; subst hm; rfl)
+
+theorem ablock_compileTransfer {dev : Device} {labs₀ : List Labware} {I} (hwf : WFI I) (cfg : Cfg)
+    (hdev : cfg.dev = dev) (S : Labware) (src : Nat) (hIs : ∃ n, I[src]? = some (S.name, S.geom, n))
+    (D : Labware) (dst : Nat) (hId : ∃ n, I[dst]? = some (D.name, D.geom, n))
+    (srcWells dstWells : Arr String) (vols : Arr Rat) (label : Option String) (wash : WashArg)
+    (partitionBy : String) (kw : KW) :
+    ABlock dev labs₀ I
+      (compileTransfer cfg S src srcWells D dst dstWells vols label wash partitionBy kw) := by
+  unfold compileTransfer
+  split
+  · exact ablock_fail _
+  · simp only
+    split
+    · exact ablock_fail _
+    · split
+      · exact ablock_fail _
+      · split
+        · exact ablock_fail _
+        · rename_i byDest _
+          rw [List.append_assoc]
+          apply ablock_append (ablock_all_neutral _ (commentMicros_neutral label))
+          apply ablock_append
+          · apply ablock_flatMap
+            intro stp hstp
+            cases stp with
+            | pair s d v =>
+              simp only
+              exact ablock_pair hwf cfg hdev S src hIs D dst hId s d v kw
+                (pair_pos_transferPlan _ _ _ _ s d v hstp)
+            | action => exact ablock_all_neutral _ (actionMicros_neutral cfg wash)
+            | brk =>
+              exact ablock_all_neutral _ (by
+                intro m hm; simp only [List.mem_singleton] at hm; subst hm; rfl)
+          · apply ablock_all_neutral
+            intro m hm
+            split at hm
+            · simp only [List.mem_singleton] at hm; subst hm; rfl
+            · simp only [List.mem_cons, List.not_mem_nil, or_false] at hm
+              rcases hm with rfl | rfl <;> rfl
+
+/-- Operations whose liquid is *traceable*: every dispensed liquid was aspirated by the same operation
+    from a tracked well (`transfer`), or no liquid is moved at all (record-only operations, history
+    condensation).  A stand-alone `dispense` delivers whatever the caller says it does, a stand-alone
+    `aspirate` has no destination; `distribute` is one `R;` record (see DESIGN.md, C01). -/
+def traceable : Op → Bool
+  | .transfer .. => true
+  | .comment _ | .wash _ | .decontaminate | .flush | .commit | .setDiti _ | .condenseLog .. => true
+  | .evoWash _ => true
+  | _ => false
+
+theorem compile_ablock {labs₀ : List Labware} (w : World) (hwf : WFI (info w)) (op : Op)
+    (hop : traceable op = true) : ABlock w.cfg.dev labs₀ (info w) (compile w op) := by
+  cases op with
+  | transfer s sw d dw vols label wash pb kw =>
+    simp only [compile]
+    cases hS : w.labs[s]? with
+    | none => exact ablock_fail _
+    | some S =>
+      cases hD : w.labs[d]? with
+      | none => exact ablock_fail _
+      | some D =>
+        exact ablock_compileTransfer hwf w.cfg rfl S s (info_getElem hS) D d (info_getElem hD) _ _ _ _ _ _ _
+  | comment c => exact ablock_all_neutral _ (commentMicros_neutral c)
+  | wash n => exact ablock_all_neutral _ (washMicros_neutral w.cfg n)
+  | decontaminate =>
+    simp only [compile]
+    split
+    · exact ablock_fail _
+    · exact ablock_all_neutral _ (by intro m hm; simp only [List.mem_singleton] at hm; subst hm; rfl)
+  | flush => exact ablock_all_neutral _ (by intro m hm; simp only [compile, List.mem_singleton] at hm; subst hm; rfl)
+  | commit => exact ablock_all_neutral _ (by intro m hm; simp only [compile, List.mem_singleton] at hm; subst hm; rfl)
+  | setDiti i => exact ablock_all_neutral _ (by intro m hm; simp only [compile, List.mem_singleton] at hm; subst hm; rfl)
+  | condenseLog l n label =>
+    exact ablock_all_neutral _ (by intro m hm; simp only [compile, List.mem_singleton] at hm; subst hm; rfl)
+  | evoWash a =>
+    simp only [compile]
+    split
+    · exact ablock_fail _
+    · cases evoWash a with
+      | error e => exact ablock_fail _
+      | ok f =>
+        exact ablock_all_neutral _ (by
+          intro m hm; simp only [exceptMicros, List.mem_singleton] at hm; subst hm; rfl)
+  | _ => simp [traceable] at hop
+
+/-! ### The initial state -/
+
+theorem amtOf_map_comp (comp : List (String × List Rat)) (i : Nat) (x : Rat) (k : String) :
+    amtOf (comp.map fun p => (p.1, p.2.getD i 0 * x)) k = Mix.fracC comp i k * x := by
+  induction comp with
+  | nil => simp [amtOf_nil, Mix.fracC, List.lookup]
+  | cons p rest ih =>
+    obtain ⟨a, arr⟩ := p
+    rw [List.map_cons, amtOf_cons, ih, Mix.fracC_cons]
+    by_cases h : k = a
+    · subst h; simp
+    · have : ¬ a = k := fun e => h e.symm
+      simp [h, this]
+
+theorem labAmt_ofLabs (L : Labware) (hL : CompValid L) :
+    LabAmt { name := L.name, geom := L.geom, minV := L.minV, maxV := L.maxV,
+             wells := (List.range L.vols.length).map fun i =>
+               { vol := L.vol i, amts := L.comp.map fun (k, arr) => (k, arr.getD i 0 * L.vol i) } } L := by
+  intro i wl hw
+  simp only [List.getElem?_map, List.getElem?_range] at hw
+  by_cases hi : i < L.vols.length
+  · simp only [List.getElem?_range hi, Option.map_some, Option.some.injEq] at hw
+    subst hw
+    refine ⟨?_, fun k => ?_⟩
+    · simp only [List.map_map]
+      exact hL.keys_nodup
+    · simp only
+      rw [show (L.comp.map fun (x : String × List Rat) => (x.1, x.2.getD i 0 * L.vol i))
+            = (L.comp.map fun p => (p.1, p.2.getD i 0 * L.vol i)) from rfl, amtOf_map_comp]
+      rfl
+  · rw [List.getElem?_eq_none (by simpa using Nat.le_of_not_lt hi)] at hw
+    simp at hw
+
+theorem amtOK_ofLabs (w : World) (hG : Good w) : AmtOK (RState.ofLabs w.labs) w := by
+  unfold AmtOK RState.ofLabs
+  simp only
+  have : ∀ labs : List Labware, (∀ L ∈ labs, CompValid L) →
+      List.Forall₂ LabAmt (labs.map fun L =>
+        ({ name := L.name, geom := L.geom, minV := L.minV, maxV := L.maxV,
+           wells := (List.range L.vols.length).map fun i =>
+             { vol := L.vol i, amts := L.comp.map fun (k, arr) => (k, arr.getD i 0 * L.vol i) } } : RLab)) labs := by
+    intro labs
+    induction labs with
+    | nil => intro _; exact List.Forall₂.nil
+    | cons L Ls ih =>
+      intro h
+      exact List.Forall₂.cons (labAmt_ofLabs L (h L List.mem_cons_self))
+        (ih fun L' hL' => h L' (List.mem_cons_of_mem _ hL'))
+  exact this w.labs fun L hL => (hG L hL).2
 
 end Amt
 end Robotools
